@@ -97,7 +97,11 @@ def perturb(rng, scn):
         if kind == 'attr_value':
             if m['op'] == 'AddField':
                 a = m['field']['attrs']
-                if 'max_length' in a:
+                if m['field']['kind'] in spec.FK_KINDS and \
+                        rng.random() < 0.6:
+                    # relations are indexed by default
+                    a['db_index'] = not a.get('db_index', True)
+                elif 'max_length' in a:
                     a['max_length'] += 7
                 else:
                     a['null'] = not a.get('null', False)
